@@ -62,6 +62,7 @@ var impls = map[string]func(string) string{
 	"sftp.store":      implSftpStore,
 	"sftp.get":        implSftpGet,
 	"sftp.has":        implSftpHas,
+	"cmdflow.run":     implCmdflowRun,
 }
 
 type replayFile struct {
